@@ -71,11 +71,12 @@ class Sys:
     is_phonon = False
     periodic = np.array([True, True, True])
 
-    def __init__(s, iR, X, nb, rec=(1, 1, 1)):
+    def __init__(s, iR, X, nb, rec=None):
         s.real_lattice = LATTICE.copy()
         s.recip_lattice = 2 * np.pi * np.linalg.inv(LATTICE).T
         s.rvec = RV.Rvectors(lattice=LATTICE.copy(), iRvec=np.array(iR), shifts_left_red=CENTRES[:nb].copy())
-        s.X, s.num_wann, s.NKFFT_recommended, s.pointgroup = dict(Ham=X), nb, np.array(rec), PointGroup(real_lattice=LATTICE.copy())
+        s.X, s.num_wann, s.pointgroup = dict(Ham=X), nb, PointGroup(real_lattice=LATTICE.copy())
+        s.NKFFT_recommended = np.array(rec) if rec is not None else s.rvec.NKFFT_recommended()     # None: the real recommendation (larger than every box used here)
 
     def get_R_mat(s, k):
         return s.X[k]
